@@ -46,8 +46,9 @@ PROPS["C04"] = {
         {"pkg": ".", "dir": "s3db", "entry": "VerifH_C04_commit",
          "quick": {"params": "maxstmts=1", "workers": 16, "timeout": 900},
          "thorough": {"params": "maxstmts=2", "workers": 16, "timeout": 3000}},
+        {"pkg": ".", "dir": "s3db", "entry": "VerifH_C04_vacuum", "quick": {"workers": 16, "timeout": 900}},
     ],
-    "bounds": {"quick": "committed prefix in {empty, 3 keys, 5 keys (depth 2), two unmerged versions}; transaction of 1 statement from {insert, update, delete, insert-growing-the-tree}; crash index symbolic over every mutating request of open+commit",
+    "bounds": {"quick": "vacuum: 3 table shapes x 3 cutoffs, crash index symbolic over every mutating request of vacuum; committed prefix in {empty, 3 keys, 5 keys (depth 2), two unmerged versions}; transaction of 1 statement from {insert, update, delete, insert-growing-the-tree}; crash index symbolic over every mutating request of open+commit",
                "thorough": "transactions of 1..2 statements"},
     "outside": "torn single PUTs (objects are atomic), crash of the store, SQLite's journal",
     "assumptions": [TIME_RANGE, "a crash is modelled as the store refusing the k-th mutating request and everything after it (same bucket state as a process death between two requests)"],
